@@ -123,6 +123,7 @@ class WireMonitor:
                 self._v("C05.window", "numbering", f"new DATA frame numbered {frm}, expected {self.next_frm} (t={now:.6f})")
             if retx:
                 self._v("C05.same", "retx-first", f"reTx set on the first transmission of frame {frm} (t={now:.6f})")
+                self._v("C03.tx", "retx-bit", f"control byte of the first transmission of DATA frame {frm} has the reTx bit set (t={now:.6f})")
             self.outstanding = [frm, payload, 1, now]
             self.next_frm = (frm + 1) % 8
             return
@@ -144,6 +145,7 @@ class WireMonitor:
             self._v("C05.same", "payload", f"repeat of frame {frm} carries a different payload")
         if not retx:
             self._v("C05.same", "retx-repeat", f"reTx clear on transmission {o[2] + 1} of frame {frm} (t={now:.6f})")
+            self._v("C03.tx", "retx-bit", f"control byte of transmission {o[2] + 1} of DATA frame {frm} has the reTx bit clear (t={now:.6f})")
         o[2] += 1
         if o[2] > ACK_TIMEOUTS:
             self._v("C05.budget", "attempts", f"frame {frm} transmitted {o[2]} times")
